@@ -231,6 +231,20 @@ class View:
         # start from the same library state, including caches that a previous schedule (or the solo reference run) filled
         return [dict(vars(o)) for _, o in self.objs], [_copy.copy(c) for c in self.all_conts], [getattr(m, k, None) for m, k in self.scalars]
 
+    def touched(self, snap):
+        """Number of module-level containers / scalars / tracked instances whose state differs from the snapshot: the code under test
+        WRITES process-wide state while differentiating (on the unchanged tree this is only the thread-local trace stack)."""
+        objs, conts, scal = snap
+        n = 0
+        for c, saved in zip(self.all_conts, conts):
+            try:
+                n += int(c != saved)
+            except Exception:
+                n += int(len(c) != len(saved))
+        for (m, k), v in zip(self.scalars, scal):
+            n += int(getattr(m, k, None) is not v and getattr(m, k, None) != v)
+        return n
+
     def restore(self, snap):
         objs, conts, scal = snap
         for (m, k), v in zip(self.scalars, scal):
